@@ -13,6 +13,9 @@ this module only produces observations.
 """
 import base64
 import bisect
+import hashlib
+import shutil
+import tempfile
 import json
 import os
 import re
@@ -56,9 +59,9 @@ def load_table(chk):
 class ModelRuns:
     """Runs the exhaustive configs in background threads (they only need CPU) while the check builds."""
 
-    def __init__(self, chk, tier, workers=3):
+    def __init__(self, chk, tier, workers=3, cfgs=None):
         self.chk, self.tier = chk, tier
-        self.cfgs = QUICK_CFGS if tier == "quick" else THOROUGH_CFGS
+        self.cfgs = cfgs if cfgs is not None else (QUICK_CFGS if tier == "quick" else THOROUGH_CFGS)
         self.results, self.errors, self.threads = {}, [], []
         for cfg in self.cfgs:
             t = threading.Thread(target=self._one, args=(cfg, workers), daemon=True)
@@ -90,14 +93,29 @@ class ModelRuns:
         return summary
 
 
-def replay_vectors(chk, num, seed):
+def simulate_check(chk, cfg, num, seed, depth=4000, workers=4):
+    """TLC simulation (random behaviours) of a config whose state space is not exhausted; invariants are checked on every state."""
+    work = mkscratch("lit-tlc-sim")
+    r = tlc("Literals", cfg, workdir=work, workers=workers, timeout=2400, jvm=_jvm(work),
+            simulate=f"num={max(1, (num + workers - 1) // workers)}", depth=depth, seed=seed)
+    if r.violated or r.error:
+        raise Inconclusive(f"TLC {cfg} (simulation): violated={r.violated} error={r.error}\n{r.out[-2500:]}")
+    m = re.search(r"The number of states generated: (\d+)", r.out)
+    n = int(m.group(1)) if m else 0
+    chk.transitions += n
+    chk.states += n
+    rmtree(work)
+    return n
+
+
+def replay_vectors(chk, num, seed, cfg="Literals-replay.cfg", depth=4000):
     """TLC simulation of Literals.tla at the code's real constants; returns the printed choice vectors."""
     work = mkscratch("lit-tlc-replay")
     workers = 4
-    r = tlc("Literals", "Literals-replay.cfg", workdir=work, workers=workers, timeout=1500, jvm=_jvm(work),
-            simulate=f"num={max(1, (num + workers - 1) // workers)}", depth=4000, seed=seed)
+    r = tlc("Literals", cfg, workdir=work, workers=workers, timeout=2400, jvm=_jvm(work),
+            simulate=f"num={max(1, (num + workers - 1) // workers)}", depth=depth, seed=seed)
     if r.violated or r.error:
-        raise Inconclusive(f"TLC Literals-replay.cfg: violated={r.violated} error={r.error}\n{r.out[-2500:]}")
+        raise Inconclusive(f"TLC {cfg}: violated={r.violated} error={r.error}\n{r.out[-2500:]}")
     m = re.search(r"The number of states generated: (\d+)", r.out)
     if m:
         chk.transitions += int(m.group(1))
@@ -266,8 +284,23 @@ func unhex(s string) []byte {
 	return out
 }
 
+// cat joins short pieces at run time: the pieces are below literals.MinSize, so the value built from
+// them never is a literal that -literals rewrites.
+func cat(parts ...string) string {
+	n := 0
+	for _, p := range parts {
+		n += len(p)
+	}
+	buf := make([]byte, 0, n)
+	for _, p := range parts {
+		buf = append(buf, p...)
+	}
+	return string(buf)
+}
+
+var hexd = cat("0123456", "789abcd", "ef")
+
 func emit(tag string, id int, b []byte) {
-	const hexd = "0123456789abcdef"
 	buf := make([]byte, 0, len(b)*2)
 	for _, c := range b {
 		buf = append(buf, hexd[c>>4], hexd[c&15])
@@ -377,7 +410,8 @@ def cell_source(c: Cell, rng) -> str:
         decls, body = f"func b{N}(p {T}) {T} {{ return p + {LIT} }}", f'v := b{N}("")'
     elif ctx == "case_label":
         decls = f"func w{N}(x {T}) int {{\n\tswitch x {{\n\tcase {LIT}:\n\t\treturn 1\n\t}}\n\treturn 0\n}}"
-        hx = go_str(data.hex().encode())
+        h = data.hex()
+        hx = "cat(" + ", ".join('"%s"' % h[i:i + 6] for i in range(0, len(h), 6)) + ")"
         if form == "byte_array":
             body = f"var a {T}\n\tcopy(a[:], unhex({hx}))\n\tv := w{N}(a)"
         else:
@@ -464,4 +498,442 @@ def parse_emitted(text, tag=None):
                 out[(f[0], int(f[1]))] = None
         elif len(f) == 2 and (tag is None or f[0] == tag) and f[1].isdigit():
             out[(f[0], int(f[1]))] = b""
+    return out
+
+
+# --------------------------------------------------------------------------- choosing cells
+
+def size_class_row(index, ctx, form, size):
+    """The table row that governs (ctx, form, size): rows exist for the boundary sizes; any other size
+    behaves like the class it falls in (the spec's Rewritten depends on size only through the window)."""
+    if size < 8:
+        cls = 7 if (ctx, form, 7) in index else 1
+    elif size == 8:
+        cls = 8
+    elif size <= 255:
+        cls = 9
+    elif size == 256:
+        cls = 256
+    elif size < 2048:
+        cls = 257
+    elif size == 2048:
+        cls = 2048
+    else:
+        cls = 2049
+    row = index.get((ctx, form, cls))
+    if row is None:
+        return None
+    if row["size"] == size:
+        return row
+    r = dict(row)
+    r["size"] = size
+    if r["rewritten"]:
+        r["obfs"] = OBF_NAMES if size <= 256 else OBF_NAMES[:2]
+    return r
+
+
+def table_index(table):
+    return {(r["ctx"], r["form"], r["size"]): r for r in table["rows"]}
+
+
+def table_pairs(table):
+    return sorted({(r["ctx"], r["form"]) for r in table["rows"]})
+
+
+def plan_mix(table, rng, full_ctxs, mid=(9, 48), max_size=2049, leads=("none", "hide-gap")):
+    """Rows for one generated package: every (context, form) pair once at a random size inside the window,
+    and every size class for the contexts in full_ctxs."""
+    index = table_index(table)
+    rows = []
+    for ctx, form in table_pairs(table):
+        r = size_class_row(index, ctx, form, rng.randint(*mid))
+        if r is not None and r["lead"] in leads:
+            rows.append(r)
+        if ctx in full_ctxs:
+            for s in table["sizes"]:
+                r = index.get((ctx, form, s))
+                if r is not None and s <= max_size and r["lead"] in leads:
+                    rows.append(r)
+    return rows
+
+
+def lead_rows(table, kind, sizes=(9,)):
+    return [r for r in table["rows"] if r["lead"] == kind and r["size"] in sizes]
+
+
+# --------------------------------------------------------------------------- the in-process driver
+
+class Driver:
+    def __init__(self):
+        self.bin = build_harness("litdrv")
+
+    def run(self, jobs, workdir, timeout=900):
+        workdir = Path(workdir)
+        workdir.mkdir(parents=True, exist_ok=True)
+        jp = workdir / f"jobs-{len(list(workdir.glob('jobs-*.json')))}.json"
+        jp.write_text(json.dumps(jobs))
+        r = run([self.bin, "-jobs", jp], timeout=timeout, env=base_env())
+        if r.returncode != 0 or r.timed_out:
+            raise Inconclusive(f"litdrv failed: rc={r.returncode} {r.stderr[-1500:]}")
+        res = [json.loads(l) for l in r.stdout.splitlines() if l.strip()]
+        if len(res) != len(jobs):
+            raise Inconclusive("litdrv: reply count mismatch")
+        return res
+
+
+def read_draw_log(path):
+    out = {}
+    for line in Path(path).read_text().splitlines():
+        if line.strip():
+            o = json.loads(line)
+            out[o["i"]] = o["draws"]
+    return out
+
+
+def decl_gains(cells, decls_path):
+    """cell index -> function literals gained by the cell's declarations (what the real Obfuscate rewrote)."""
+    decls = json.loads(Path(decls_path).read_text())
+    starts = [c.lines[0] for c in cells]
+    gain = {}
+    for line, before, after in decls:
+        i = bisect.bisect_right(starts, line) - 1
+        if i >= 0 and line < cells[i].lines[1]:
+            gain[i] = gain.get(i, 0) + (after - before)
+    return gain
+
+
+def table_binding(chk, table, drv, rng, work):
+    """B3: every row of the decision table against the real literals.Obfuscate (in process).
+    Returns (rows checked, list of drifting rows).  Drift is model mismatch, not a verdict."""
+    rows = sorted(table["rows"], key=lambda r: (r["ctx"], r["form"], r["size"]))
+    cells = make_cells(rows, rng, content="any")
+    src = gen_file("main", cells, rng, tag="t")
+    work = Path(work)
+    work.mkdir(parents=True, exist_ok=True)
+    (work / "table.go").write_text(src)
+    res = drv.run([{"src": str(work / "table.go"), "out": str(work / "table_obf.go"), "decls": str(work / "table_decls.json"),
+                    "plain": True, "xvars": [f"x{c.id}" for c in cells if c.ctx == "xvar_decl"],
+                    "script": {"seed": rng.randrange(1 << 31)}}], work)
+    if not res[0]["ok"]:
+        raise Inconclusive(f"litdrv could not process the table file: {res[0].get('error')}")
+    gain = decl_gains(cells, work / "table_decls.json")
+    drift = []
+    for i, c in enumerate(cells):
+        real = gain.get(i, 0) > 0
+        if real != c.row["rewritten"]:
+            drift.append({"ctx": c.ctx, "form": c.form, "size": c.size, "table": c.row["rewritten"], "real": real})
+    return len(cells), drift
+
+
+BOUNDARY_PROFILES = [
+    # every Intn/Perm draw 0 (first operator XOR, position 0 every time: each swap pair hits one byte twice,
+    # one-byte chunks, first key, shift 0), keys and seeds 0, every Try succeeds
+    {"*/Intn": "0", "*/Perm": "0", "*/Uint32": "0", "*/Read": "0", "*/Float32": "1", "*/Shuffle": "1", "*/Uint64": "0"},
+    # every draw 1: operator ADD, byte values 255, Try fails
+    {"*/Intn": "1", "*/Perm": "1", "*/Uint32": "255", "*/Read": "255", "*/Float32": "0", "*/Shuffle": "4294967295",
+     "*/Uint64": "18446744073709551615"},
+    # every draw 2: operator SUB, byte values 128, Try succeeds
+    {"*/Intn": "2", "*/Perm": "2", "*/Uint32": "128", "*/Read": "128", "*/Float32": "1", "*/Shuffle": "1",
+     "*/Uint64": "9259542123273814144"},
+    # large draws: reduced modulo n by Int31n, i.e. a different value at every choice point
+    {"*/Intn": "1000003", "*/Perm": "7", "*/Uint32": "77", "*/Read": "1", "*/Float32": "1", "*/Uint64": "72623859790382856"},
+]
+
+
+class DriverModule:
+    """A Go module made of packages produced by driver jobs (one job = one file = one package), built twice:
+    as generated (reference) and as printed by the real literals.Obfuscate."""
+
+    def __init__(self, root, drv):
+        self.root = Path(root)
+        self.drv = drv
+        self.pkgs = []      # (name, cells, job, meta)
+        for d in ("orig", "obf"):
+            (self.root / d).mkdir(parents=True, exist_ok=True)
+
+    def add(self, name, cells, rng, script, meta=None, log=False):
+        src = gen_file(name, cells, rng, tag=name, main=False)
+        for d in ("orig", "obf"):
+            (self.root / d / name).mkdir(exist_ok=True)
+        (self.root / "orig" / name / "p.go").write_text(src)
+        job = {"src": str(self.root / "orig" / name / "p.go"), "out": str(self.root / "obf" / name / "p.go"),
+               "decls": str(self.root / f"{name}.decls.json"),
+               "xvars": [f"x{c.id}" for c in cells if c.ctx == "xvar_decl"], "script": script}
+        if log:
+            job["log"] = str(self.root / f"{name}.log.ndjson")
+        self.pkgs.append((name, cells, job, meta or {}))
+
+    def obfuscate(self):
+        res = self.drv.run([p[2] for p in self.pkgs], self.root)
+        self.results = res
+        return res
+
+    def build_and_run(self, sb):
+        """Returns {variant: (build Result, {(tag,id): bytes}, run Result)} for variants orig and obf."""
+        mod = "example.com/litdrv"
+        main = "package main\n\nimport (\n" + "".join(f'\t"{mod}/{n}"\n' for n, _, _, _ in self.pkgs) + ")\n\nfunc main() {\n" + \
+               "".join(f"\t{n}.Run()\n" for n, _, _, _ in self.pkgs) + "}\n"
+        out = {}
+
+        def one(variant):
+            d = self.root / variant
+            (d / "go.mod").write_text(f"module {mod}\n\ngo 1.26\n")
+            (d / "main.go").write_text(main)
+            b = sb.go(["build", "-o", str(self.root / (variant + ".bin")), "."], cwd=d, timeout=1500)
+            if b.returncode != 0:
+                out[variant] = (b, {}, None)
+                return
+            r = run([self.root / (variant + ".bin")], timeout=300)
+            out[variant] = (b, parse_emitted(r.stderr), r)
+
+        ts = [threading.Thread(target=one, args=(v,)) for v in ("orig", "obf")]
+        for t in ts:
+            t.start()
+        for t in ts:
+            t.join()
+        return out
+
+
+def vector_cells(vecs, rng, start_id=0):
+    """One literal per TLC choice vector: the form follows the vector's layer, the content is random
+    (the model's draws do not depend on the content, only on the length)."""
+    cells = []
+    for i, v in enumerate(vecs):
+        form = {"string": "string", "bytes": rng.choice(["byte_slice", "ptr_byte_slice"]),
+                "array": rng.choice(["byte_array", "ptr_byte_array"])}[v["layer"]]
+        n = v["n"]
+        row = {"ctx": "var_init", "form": form, "size": n, "rewritten": True, "musthide": True, "constreq": False,
+               "prune": "none", "lead": "none", "obfs": OBF_NAMES}
+        cells.append(Cell(start_id + i, row, rand_bytes(rng, n, "any")))
+    return cells
+
+
+# --------------------------------------------------------------------------- whole-tool builds
+
+FORCED = {"p0": 0, "p1": 1, "p2": 2, "p3": 3, "p4": 4}      # package name -> index into literals.Obfuscators
+OBF_MAP_ENV = ",".join(f"{k}={v}" for k, v in FORCED.items())
+MODULE = "example.com/litprog"
+
+
+class Program:
+    """A generated module: packages p0..p4 (one obfuscator forced in each), p5 and main (default random choice).
+
+    kind "forced": p0..p4 carry the size sweep (every form in a var initialiser at every boundary size the forced
+    obfuscator may meet) and a random share of the (context, form) pairs; p5 carries every pair once.
+    kind "default": only p5 and main (used for the -seed configurations, where the random choice is what varies)."""
+
+    def __init__(self, root, table, rng, tier, kind="forced"):
+        self.root = Path(root)
+        self.table = table
+        self.cells = []          # all cells of all packages
+        self.xflags = []
+        self.pkgs = (list(FORCED) if kind == "forced" else []) + ["p5", "main"]
+        index = table_index(table)
+        pairs = [p for p in table_pairs(table)]
+        files = {}
+        next_id = 0
+        quick = tier == "quick"
+        for pkg in self.pkgs:
+            forced = FORCED.get(pkg)
+            rows = []
+
+            def add(ctx, form, size):
+                r = size_class_row(index, ctx, form, size)
+                if r is not None and r["lead"] != "const-break":
+                    rows.append(r)
+
+            if forced is not None:
+                # the expensive obfuscators are never chosen above MaxSizeExpensive by the real code; forcing
+                # them on 2 KiB literals would only measure compile time
+                sweep = [7, 8, 9, 255, 256] + ([257, 2048, 2049] if forced < 2 else [])
+                if quick:
+                    sweep = [7, 8, rng.randint(9, 40), rng.choice([255, 256])] + ([rng.choice([257, 2048]), 2049] if forced < 2 else [])
+                for form in table["forms"]:
+                    for sz in sweep:
+                        add("var_init", form, sz)
+                share = rng.sample(pairs, len(pairs) // (6 if quick else 2))
+                for ctx, form in share:
+                    add(ctx, form, rng.randint(8, 40))
+            elif pkg == "p5":
+                for ctx, form in pairs:
+                    add(ctx, form, rng.choice([8, 9]) if rng.random() < 0.2 else rng.randint(10, 48))
+                sweep = table["sizes"] if not quick else [0, 1, 7, 8, 255, 256, rng.choice([257, 2048]), 2049]
+                for form in table["forms"]:
+                    for sz in sweep:
+                        add("var_init", form, sz)
+                extra = rng.sample([c for c in table["contexts"] if c != "var_init"], 1 if quick else 4)
+                for ctx in extra:
+                    for form in table["forms"]:
+                        for sz in ([7, 8, 2048, 2049] if quick else table["sizes"]):
+                            if (ctx, form, sz) in index:
+                                add(ctx, form, sz)
+            else:   # main
+                for ctx, form in rng.sample(pairs, 12 if quick else 60):
+                    add(ctx, form, rng.randint(8, 40))
+                add("xvar_decl", "string", 12)
+            cells = make_cells(rows, rng, start_id=next_id)
+            next_id += len(cells)
+            for c in cells:
+                if c.ctx == "xvar_decl":
+                    c.inject = b"inj-" + rand_bytes(rng, 12, "text")
+                    path = "main" if pkg == "main" else f"{MODULE}/{pkg}"
+                    self.xflags.append(f"-X={path}.x{c.id}={c.inject.decode()}")
+            if pkg == "main":
+                src = gen_file("main", cells, rng, tag="main", main=False)
+                src = src.replace("func Run() {", "func runMain() {")
+                others = [p for p in self.pkgs if p != "main"]
+                imports = "".join(f'\t"{MODULE}/{p}"\n' for p in others)
+                src = src.replace("package main\n", "package main\n\nimport (\n" + imports + ")\n", 1)
+                src += "\nfunc main() {\n" + "".join(f"\t{p}.Run()\n" for p in others) + "\trunMain()\n}\n"
+                files["main.go"] = src
+            else:
+                files[f"{pkg}/p.go"] = gen_file(pkg, cells, rng, tag=pkg, main=False)
+            self.cells += cells
+        write_module(self.root, files, module=MODULE)
+        self.ldflags = "-ldflags=" + " ".join(self.xflags)
+
+    def by_key(self):
+        return {(c.pkg, c.id): c for c in self.cells}
+
+
+class Built:
+    def __init__(self, name, build, binary, out, runres, flags, env, seed_bytes=None):
+        self.name, self.build, self.binary, self.out, self.runres = name, build, binary, out, runres
+        self.flags, self.env, self.seed_bytes = flags, env, seed_bytes
+        self._bytes = None
+        self.reused = False
+
+    @property
+    def ok(self):
+        return self.build.returncode == 0
+
+    def bytes(self):
+        if self._bytes is None:
+            self._bytes = Path(self.binary).read_bytes()
+        return self._bytes
+
+
+LITCACHE = CACHE / "litbuilds"
+LITCACHE_KEEP = 16
+
+
+def _cache_key(garble, prog, flags, env):
+    h = hashlib.sha256()
+    h.update(b"litbuilds-v1\0")
+    h.update(sha256_file(garble).encode())
+    h.update(json.dumps([flags, prog.ldflags, sorted(env.items())]).encode())
+    for rel, (kind, digest) in sorted(tree_digest(prog.root).items()):
+        h.update(f"{rel}\0{kind}\0{digest}\n".encode())
+    return h.hexdigest()[:32]
+
+
+def _cache_load(key, root, name):
+    d = LITCACHE / key
+    if os.environ.get("VERIF_NO_LITCACHE") or not (d / "ok").exists():
+        return None
+    try:
+        meta = json.loads((d / "meta.json").read_text())
+        out = {}
+        for which in ("ref", "garbled"):
+            m = meta[which]
+            binp = Path(root) / f"{name}.{which}"
+            if m["rc"] == 0:
+                shutil.copyfile(d / which, binp)
+            out[which] = (Result(m["rc"], "", m["stderr"], m["wall"]), binp, m["run_rc"], m["run_stderr"])
+        os.utime(d / "ok")
+        return out
+    except (OSError, ValueError, KeyError):
+        return None
+
+
+def _cache_store(key, ref, g):
+    if os.environ.get("VERIF_NO_LITCACHE"):
+        return
+    try:
+        LITCACHE.mkdir(parents=True, exist_ok=True)
+        tmp = Path(tempfile.mkdtemp(prefix="tmp-", dir=LITCACHE))
+        meta = {}
+        for which, b in (("ref", ref), ("garbled", g)):
+            if b.ok:
+                shutil.copyfile(b.binary, tmp / which)
+            meta[which] = {"rc": b.build.returncode, "stderr": b.build.stderr[-20000:], "wall": b.build.wall,
+                           "run_rc": None if b.runres is None else b.runres.returncode,
+                           "run_stderr": "" if b.runres is None else b.runres.stderr}
+        (tmp / "meta.json").write_text(json.dumps(meta))
+        (tmp / "ok").write_text("ok\n")
+        dst = LITCACHE / key
+        if dst.exists():
+            rmtree(tmp)
+        else:
+            os.rename(tmp, dst)
+        entries = sorted((p for p in LITCACHE.iterdir() if p.is_dir() and (p / "ok").exists()), key=lambda p: (p / "ok").stat().st_mtime)
+        for old in entries[:-LITCACHE_KEEP]:
+            rmtree(old)
+    except OSError as e:
+        log("litbuilds cache not written:", e)
+
+
+def whole_tool(chk, tier, table, root, nseeds, rng):
+    """Builds generated programs with the regular toolchain and with garble -literals.
+    Returns (sandbox, [(Program, reference Built, garbled Built)]).
+
+    The two checks that use these builds (C05: printed values, C09: bytes of the binary) derive the same programs
+    and -seed values from the same check seed, so finished builds are kept in /verif/.cache/litbuilds keyed by the
+    sha256 of the garble binary (which changes with every edit of the repository under check), the complete
+    generated module, the flags and the environment; VERIF_NO_LITCACHE=1 switches this off."""
+    garble = build_garble("verif,garble_testing")
+    root = Path(root)
+    sb = Sandbox(root / "sb", template=True, garble_bin=garble)
+    runs = []
+    configs = [("forced+default", [], None)]
+    for i in range(nseeds):
+        sd = bytes(rng.randrange(256) for _ in range(16))
+        configs.append((f"seed{i}", ["-seed=" + base64.b64encode(sd).decode().rstrip("=")], sd))
+    for name, flags, seed_bytes in configs:
+        prog = Program(root / f"prog-{name}", table, rng, tier, kind="forced" if seed_bytes is None else "default")
+        env = {"GARBLE_TEST_LITERALS_OBFUSCATOR_MAP": OBF_MAP_ENV}
+        refbin, gbin = root / f"{name}.ref", root / f"{name}.garbled"
+        key = _cache_key(garble, prog, flags, env)
+        hit = _cache_load(key, root, name)
+        if hit is not None:
+            (rb, _, rrc, rerr), (gb, _, grc, gerr) = hit["ref"], hit["garbled"]
+            rr = Result(rrc, "", rerr, 0.0)
+            ref = Built(name, rb, refbin, parse_emitted(rerr), rr, [], {})
+            gr = None if grc is None else Result(grc, "", gerr, 0.0)
+            g = Built(name, gb, gbin, parse_emitted(gerr) if gr else {}, gr, flags + ["-literals"], env, seed_bytes)
+            g.reused = True
+            log(f"whole-tool {name}: {len(prog.cells)} cells, builds reused from {LITCACHE / key}")
+            runs.append((prog, ref, g))
+            continue
+        rb = sb.go(["build", "-o", str(refbin), prog.ldflags, "."], cwd=prog.root, timeout=1800)
+        if rb.returncode != 0:
+            raise Inconclusive(f"the regular toolchain cannot build the generated program {name}:\n{rb.stderr[-3000:]}")
+        rr = run([refbin], timeout=300)
+        ref = Built(name, rb, refbin, parse_emitted(rr.stderr), rr, [], {})
+        gb = sb.garble(flags + ["-literals", "build", "-o", str(gbin), prog.ldflags, "."], cwd=prog.root, env=env, timeout=3600)
+        if gb.timed_out:
+            raise Inconclusive(f"garble build {name} timed out")
+        gout, gr = {}, None
+        if gb.returncode == 0:
+            gr = run([gbin], timeout=300)
+            gout = parse_emitted(gr.stderr)
+        g = Built(name, gb, gbin, gout, gr, flags + ["-literals"], env, seed_bytes)
+        log(f"whole-tool {name}: {len(prog.cells)} cells, regular {rb.wall:.0f}s, garble {gb.wall:.0f}s rc={gb.returncode}")
+        _cache_store(key, ref, g)
+        runs.append((prog, ref, g))
+    return sb, runs
+
+
+def lead_programs(chk, table, sb, root, rng, kind="const-break"):
+    """One tiny main package per lead cell; returns [(cell, regular build Result, garble build Result)]."""
+    garble = build_garble("verif,garble_testing")
+    out = []
+    for i, row in enumerate(lead_rows(table, kind)):
+        cells = make_cells([row], rng, start_id=0)
+        d = Path(root) / f"lead-{kind}-{i}"
+        write_module(d, {"main.go": gen_file("main", cells, rng, tag="lead")}, module="example.com/lead")
+        rb = sb.go(["build", "-o", str(d / "ref.bin"), "."], cwd=d)
+        gb = sb.garble(["-literals", "build", "-o", str(d / "g.bin"), "."], cwd=d,
+                       env={"GARBLE_TEST_LITERALS_OBFUSCATOR_MAP": OBF_MAP_ENV}, garble_bin=garble)
+        out.append((cells[0], d, rb, gb))
     return out
